@@ -713,13 +713,23 @@ fn mode_cancel(ctx: &Ctx) {
             let path = format!("/tmp/mayv_c18_{}_{}.sock", std::process::id(), ctx.rand() % 100000);
             let _ = std::fs::remove_file(&path);
             let l = may::os::unix::net::UnixListener::bind(&path).expect("bind");
+            // MAYV_TAP=1: the listener is model descriptor 200, the connections made before the cancel are model
+            // descriptors 20, 22, ... (made by this plain thread with the blocking connect of std: for the model a
+            // connect that completes at once); the accepted sockets are dropped at once and not followed
+            const LF: u64 = 200;
+            if tap::on() {
+                tap::track_listener(l.as_raw_fd(), LF, false);
+            }
             let victim = unsafe {
                 may::coroutine::Builder::new().name("victim".into()).spawn(move || {
                     let _fl = fl;
+                    tap::actor(0);
                     loop {
                         brk();
+                        tap::call_acc(LF);
                         match l.accept() {
                             Ok((s, _)) => {
+                                tap::ret_ok(LF, 0, tap::last_accepted(LF).unwrap_or(0xffff) as usize);
                                 acc2.fetch_add(1, Ordering::SeqCst);
                                 drop(s);
                             }
@@ -732,14 +742,26 @@ fn mode_cancel(ctx: &Ctx) {
                 }).unwrap()
             };
             let mut keep = vec![];
-            for _ in 0..pre {
+            for k in 0..pre {
                 brk();
+                let cf = 20 + 2 * k;
+                if tap::on() {
+                    tap::pend_connect(cf, LF);
+                    tap::call_co(cf, LF, None);
+                }
                 match may::os::unix::net::UnixStream::connect(&path) {
-                    Ok(s) => keep.push(s),
-                    Err(e) => ctx.fail(format!("connect before the cancel failed: {e}")),
+                    Ok(s) => {
+                        tap::ret_ok(cf, 0, 0);
+                        keep.push(s)
+                    }
+                    Err(e) => {
+                        tap::ret_err(cf);
+                        ctx.fail(format!("connect before the cancel failed: {e}"))
+                    }
                 }
             }
             cancel_delay(ctx);
+            tap::cancel(0);
             unsafe { victim.coroutine().cancel() };
             check_cancel_join(ctx, victim.join(), "accept");
             if !dropped.load(Ordering::SeqCst) {
@@ -864,11 +886,34 @@ fn mode_connect(ctx: &Ctx) {
         let c = mayv::ctx();
         let t0 = c.now();
         brk();
+        // MAYV_TAP=1 (coroutine caller): the connecting socket is model descriptor 0, the listener (a std listener
+        // served by the main thread, not followed) is 200; the timer is armed with d as given (no rounding)
+        let tapped = tap::on() && in_co;
+        if tapped {
+            tap::pend_connect(0, 200);
+            tap::call_co(0, 200, Some(d));
+        }
         let r = may::net::TcpStream::connect_timeout(&addr, Duration::from_nanos(d));
         let el = c.now() - t0;
+        if tapped {
+            match &r {
+                Ok(_) => tap::ret_ok(0, 0, 0),
+                Err(e) if is_timeout(e) => tap::ret_timeout(0),
+                Err(_) => tap::ret_err(0),
+            }
+        }
         match r {
+            Ok(s) if tapped => {
+                // the reads that follow are not followed by the model (the peer is a std socket): the run ends here
+                if dead {
+                    c.fail("connect to a listener that never answers succeeded".into());
+                }
+                drop(s);
+                println!("SUMMARY connect ok");
+            }
             Err(e) if is_timeout(&e) => {
-                if !dead {
+                // (a worker held up by an injected stall for longer than d makes the timeout legitimate)
+                if !dead && !stalls_on() {
                     c.fail(format!("connect: TimedOut after {el} ns although the listener is alive"));
                 }
                 if el < d {
